@@ -1,0 +1,64 @@
+//go:build verif
+
+// Contracts for link collections (C05): every link is written on both sides, and only there. Comments only.
+package boltz
+
+// lkB(sym, store, tx, id): the bucket holding the link set of entity id for a link symbol
+//@ define lkB(sym, store, tx, id) = pathUnder(entBkt(store, tx, id), esPathArr(sym), esPathLen(sym))
+//@ define lkListed(b, x) = sel(bktHas[b], prepend(TypeString, x)) && sel(bktSub[b], prepend(TypeString, x)) == 0
+// lkOnly1 / lkOnly2: no plain entry of any bucket changes except the named one(s)
+//@ define lkOnly1(b1, x1) = forall(b, forallStr(k, !(b == b1 && k == prepend(TypeString, x1)) ==> (sel(bktHas[b], k) && sel(bktSub[b], k) == 0) == (old(sel(bktHas[b], k)) && old(sel(bktSub[b], k)) == 0)))
+//@ define lkOnly2(b1, x1, b2, x2) = forall(b, forallStr(k, !(b == b1 && k == prepend(TypeString, x1)) && !(b == b2 && k == prepend(TypeString, x2)) ==> (sel(bktHas[b], k) && sel(bktSub[b], k) == 0) == (old(sel(bktHas[b], k)) && old(sel(bktSub[b], k)) == 0)))
+
+// ---- the far side: LinkedSetSymbol ----
+//@ define lsStore(symbol) = symStoreOf(symbol.EntitySymbol)
+//@ define lsB(symbol, tx, id) = lkB(symbol.EntitySymbol, lsStore(symbol), tx, id)
+//@ func (*LinkedSetSymbol).AddLink
+//@   props C05 C07
+//@   errflow
+//@   nosafety
+//@   modifies *
+//@   censures[a-successful-repair-writes] result == nil ==> ciDirty
+//@   ensures[missing-entity-is-not-found] !entPresent(lsStore(symbol), str(id)) ==> result != nil && dbSame()
+//@   ensures[linked] result == nil ==> lkListed(lsB(symbol, tx, str(id)), str(link))
+//@   ensures[nothing-else-changes] lkOnly1(lsB(symbol, tx, str(id)), str(link))
+//@   ensures[failure-changes-no-entry] result != nil ==> plainSame()
+//@ func (*LinkedSetSymbol).RemoveLink
+//@   props C05 C07
+//@   errflow
+//@   nosafety
+//@   modifies bktHas, any errorz.ErrorHolderImpl.Err
+//@   ensures[missing-entity-is-fine] !entPresent(lsStore(symbol), str(id)) ==> result == nil && dbSame()
+//@   ensures[unlinked] result == nil && entPresent(lsStore(symbol), str(id)) ==> !lkListed(lsB(symbol, tx, str(id)), str(link))
+//@   ensures[nothing-else-changes] lkOnly1(lsB(symbol, tx, str(id)), str(link))
+//@   ensures[failure-changes-no-entry] result != nil ==> plainSame()
+
+// ---- the near side: linkCollectionImpl ----
+//@ define lcFS(c) = symStoreOf(c.field)
+//@ define lcOS(c) = lsStore(c.otherField)
+//@ define lcOwn(c, tx, id) = lkB(c.field, lcFS(c), tx, id)
+//@ define lcFar(c, tx, id) = lsB(c.otherField, tx, id)
+// a typed bucket wraps one bbolt bucket for its whole life; a link collection's two symbols are fixed when it is made
+//@ immutable H.boltz.TypedBucket.Bucket
+//@ immutable H.boltz.TypedBucket.ErrorHolderImpl
+//@ immutable H.boltz.linkCollectionImpl.field.typ
+//@ immutable H.boltz.linkCollectionImpl.field.val
+//@ immutable H.boltz.linkCollectionImpl.otherField
+//@ immutable H.boltz.LinkedSetSymbol.EntitySymbol.typ
+//@ immutable H.boltz.LinkedSetSymbol.EntitySymbol.val
+//@ func (*linkCollectionImpl).getFieldBucket
+//@   props C05
+//@   nosafety
+//@   modifies *
+//@   ensures[a-bucket-or-an-error] result != nil && result.ErrorHolderImpl != nil
+//@   ensures[missing-entity-is-an-error] !entPresent(lcFS(collection), str(id)) ==> result.Err != nil && dbSame()
+//@   ensures[the-entity's-link-bucket] entPresent(lcFS(collection), str(id)) && result.Err == nil ==> result.Bucket != nil && ref(result.Bucket) == lcOwn(collection, tx, str(id))
+//@   ensures[no-entry-changes] plainSame()
+//@ func (*linkCollectionImpl).getFieldBucketForStringId
+//@   props C05
+//@   nosafety
+//@   modifies *
+//@   ensures[a-bucket-or-an-error] result != nil && result.ErrorHolderImpl != nil
+//@   ensures[missing-entity-is-an-error] !entPresent(lcFS(collection), id) ==> result.Err != nil && dbSame()
+//@   ensures[the-entity's-link-bucket] entPresent(lcFS(collection), id) && result.Err == nil ==> result.Bucket != nil && ref(result.Bucket) == lcOwn(collection, tx, id)
+//@   ensures[no-entry-changes] plainSame()
